@@ -128,11 +128,36 @@ def seed_variants(prop: str) -> List[dict]:
     return out
 
 
+REFACTORS = os.path.join(os.path.dirname(os.path.dirname(os.path.abspath(__file__))), 'refactors')
+
+
+def refactor_variants(prop: str) -> List[dict]:
+    """the behaviour-preserving refactorings kept under /verif/refactors (written by independent sub-agents, confirmed
+    and re-verified by tools/store_refactors.py and refactors/equiv_probe.py) are replayed against every property: the
+    verdict must not change"""
+    import glob
+    import json
+    out = []
+    for d in sorted(glob.glob(os.path.join(REFACTORS, 'C[0-9][0-9]-[0-9]*'))):
+        patch = os.path.join(d, 'patch.diff')
+        if not os.path.exists(patch):
+            continue
+        rid = os.path.basename(d)
+        why = ''
+        try:
+            why = json.load(open(os.path.join(d, 'meta.json'))).get('summary', '')
+        except Exception:
+            pass
+        out.append({'name': f'refactor:{rid}', 'kind': 'preserve', 'patch': patch, 'file': f'refactors/{rid}/patch.diff',
+                    'old': '', 'new': '', 'props': [prop], 'why': (why or 'behaviour-preserving refactoring')[:140]})
+    return out
+
+
 def run(prop: str, rep, root: Optional[str] = None, jobs: int = 16):
     from .variants import VARIANTS
     root = root or repo_root()
     mine = [v for v in VARIANTS if prop in v['props']]
-    mine = mine + seed_variants(prop)
+    mine = mine + seed_variants(prop) + refactor_variants(prop)
     if not mine:
         rep.note(f'self-test: no variants registered for {prop}')
         return
